@@ -191,6 +191,24 @@ def _check_model(model, X, extra, facts, stage=""):
         one = _str.predict_leaves(model, Q[i:i + 1])
         require(np.asarray(one).shape == (1,) and int(np.asarray(one)[0]) == int(app[i]), "predict_leaves:single-row" + stage,
                 "row %d alone -> %r, apply -> %d" % (i, np.asarray(one).tolist(), int(app[i])), facts)
+    # one-row float64 queries a hair above a threshold (scikit-learn's float32 cast puts them ON it, so they go left), and a NaN cell:
+    # whatever model.apply answers for the row alone
+    inner = np.nonzero(t.children_left != -1)[0]
+    for node in inner[:4]:
+        f = int(t.feature[node])
+        th = float(np.float32(t.threshold[node]))
+        if not np.isfinite(th):
+            continue
+        for v in (th + 1e-12 * (1.0 + abs(th)), th - 1e-12 * (1.0 + abs(th)), float("nan")):
+            q = np.array(X[:1], dtype=np.float64)
+            q[0, f] = v
+            try:
+                want = model.apply(q)
+            except Exception:  # noqa: BLE001 - scikit-learn refuses the row (NaN for this tree): nothing to compare
+                continue
+            one = np.asarray(_str.predict_leaves(model, q))
+            require(one.shape == (1,) and int(one[0]) == int(want[0]), "predict_leaves:single-row:float64-near-threshold" + stage,
+                    "row %r alone -> %r, apply -> %d (threshold %r on feature %d)" % (q[0].tolist(), one.tolist(), int(want[0]), th, f), facts)
     li = _str.tree_leave_index(model)
     require(sorted(int(i) for i in li) == ref_leaves and len(li) == len(ref_leaves), "leave_index:differs" + stage,
             "tree_leave_index=%r, nodes without children=%r" % (list(li), ref_leaves), facts)
